@@ -23,8 +23,30 @@ def _env():
     return env
 
 
+def _write_if_changed(path, text):
+    try:
+        with open(path) as f:
+            if f.read() == text:
+                return
+    except OSError:
+        pass
+    tmp = path + ".tmp%d" % os.getpid()
+    with open(tmp, "w") as f:
+        f.write(text)
+    os.replace(tmp, path)
+
+
 def build_runner():
-    """(Re)build the runner against /repo's current parser sources. Returns the binary path."""
+    """(Re)build the runner against /repo's current parser sources. Returns the binary path.
+    Several worker processes may ask at the same time: the build is serialised with a file lock."""
+    import fcntl
+    os.makedirs(CACHE, exist_ok=True)
+    with open(os.path.join(CACHE, "runner.lock"), "w") as lk:
+        fcntl.flock(lk, fcntl.LOCK_EX)
+        return _build_runner_locked()
+
+
+def _build_runner_locked():
     crate = os.path.join(CACHE, "runner-crate")
     os.makedirs(os.path.join(crate, "src"), exist_ok=True)
     with open(os.path.join(REPO, "Cargo.toml")) as f:
@@ -32,9 +54,9 @@ def build_runner():
     m = re.search(r"^\[dependencies\]\s*\n(.*?)(?=^\[|\Z)", toml, flags=re.M | re.S)
     keep = ("pest", "pest_derive", "serde_yaml", "serde", "regex", "lazy_static", "log")
     deps = [l for l in m.group(1).splitlines() if l.split("=")[0].strip() in keep]
-    with open(os.path.join(crate, "Cargo.toml"), "w") as f:
-        f.write("[package]\nname = \"blv-runner\"\nversion = \"0.0.0\"\nedition = \"2021\"\n\n[dependencies]\n"
-                + "\n".join(deps) + "\n\n[workspace]\n\n[profile.dev]\ndebug = false\n")
+    _write_if_changed(os.path.join(crate, "Cargo.toml"),
+                      "[package]\nname = \"blv-runner\"\nversion = \"0.0.0\"\nedition = \"2021\"\n\n[dependencies]\n"
+                      + "\n".join(deps) + "\n\n[workspace]\n\n[profile.dev]\ndebug = false\n")
     shutil.copy(os.path.join(REPO, "Cargo.lock"), os.path.join(crate, "Cargo.lock"))
     with open(os.path.join(VERIF, "native/runner/src/main.rs")) as f:
         src = f.read().replace("REPO_SRC", os.path.join(REPO, "src"))
@@ -42,8 +64,7 @@ def build_runner():
     pdir = os.path.join(crate, "src", "parser")
     os.makedirs(pdir, exist_ok=True)
     shutil.copy(os.path.join(REPO, "src/parser/rust_grammar.pest"), os.path.join(pdir, "rust_grammar.pest"))
-    with open(os.path.join(crate, "src", "main.rs"), "w") as f:
-        f.write(src)
+    _write_if_changed(os.path.join(crate, "src", "main.rs"), src)
     target = os.path.join(CACHE, "native-target")
     p = subprocess.run(["cargo", "build", "--offline", "--target-dir", target], cwd=crate, env=_env(),
                        stdout=subprocess.PIPE, stderr=subprocess.STDOUT, text=True)
